@@ -29,7 +29,7 @@ OUT_OF_SCOPE = {"xgi.drawing.draw:draw_directed_dyads": "not among the functions
 def run(ctx):
     repo = ctx.repo
     res = Result(PROP)
-    res.rules = ["K1", "K2", "K5", "L-KEYS", "L-ORDER", "L-RANGE"]
+    res.rules = ["K1", "K2", "K5", "L-KEYS", "L-ORDER", "L-RANGE", "L-CUT"]
     res.explanation = (
         "Narrow claim: kind inference (labels vs positions) over the layout and drawing modules, key provenance of the "
         "dict every layout returns, and agreement of the permutation applied to per-edge style arrays and patches. "
@@ -54,7 +54,43 @@ def run(ctx):
     res.floor("layout functions", n, 9)
     check_order(repo, res)
     check_range(repo, res, fns)
+    check_cut(repo, res)
     return res
+
+
+def check_cut(repo, res):
+    """L-CUT: draw_simplices cuts the complex to max_order BEFORE it takes the maximal simplices. The two steps do not
+    commute: the maximal simplices of the cut complex include the order-max_order faces of every larger simplex, while
+    cutting the maximal simplices of the full complex throws a large simplex away together with all its faces."""
+    mi = repo.modules.get("xgi.drawing.draw")
+    fn = mi.functions.get("draw_simplices") if mi else None
+    if fn is None:
+        raise AnalysisError("xgi.drawing.draw.draw_simplices not found (anchor vanished)")
+    from ..cfg import CFG
+
+    cfg = CFG(fn.node)
+
+    def is_cut(n):
+        return isinstance(n, ast.AST) and any(isinstance(c, ast.Call) and isinstance(c.func, ast.Attribute) and c.func.attr == "filterby" and c.args and isinstance(c.args[0], ast.Constant) and c.args[0].value == "order" and any(isinstance(x, ast.Name) and x.id == "max_order" for a in c.args[1:] for x in ast.walk(a)) for c in ast.walk(n) if not isinstance(n, (ast.If, ast.For, ast.While, ast.Try)) or c is n)
+
+    def is_maximal(n):
+        return isinstance(n, ast.AST) and not isinstance(n, (ast.If, ast.For, ast.While, ast.Try)) and any(isinstance(c, ast.Call) and getattr(c.func, "attr", getattr(c.func, "id", None)) in ("from_max_simplices", "maximal") for c in ast.walk(n))
+
+    stmts = own_statements(fn.node)
+    cuts = [st for st in stmts if not isinstance(st, (ast.If, ast.For, ast.While, ast.Try)) and is_cut(st)]
+    maxs = [st for st in stmts if is_maximal(st)]
+    if not maxs:
+        raise AnalysisError("draw_simplices: the step that takes the maximal simplices was not found (extractor does not recognise the code)")
+    if not cuts:
+        res.add(mk_finding(PROP, "L-CUT", fn, fn.node, "draw_simplices never restricts the complex to max_order", role="cut-missing"))
+        res.inst("L-CUT", "draw_simplices cuts to max_order before taking maximal simplices", False)
+        return
+    # no cut may come after (be reachable from) the maximal step
+    late = [c for c in cuts if any(c in cfg.reachable(m) for m in maxs)]
+    ok = not late
+    res.inst("L-CUT", "draw_simplices cuts to max_order before taking maximal simplices", ok)
+    if not ok:
+        res.add(mk_finding(PROP, "L-CUT", fn, late[0], f"draw_simplices applies the max_order cut `{unparse(late[0], 60)}` after the maximal simplices were taken; a simplex larger than max_order then disappears together with all its faces (its triangles are not drawn as polygons, its two-node faces not as lines)", role="cut-late"))
 
 
 EXTREME = {"max": "max", "amax": "max", "nanmax": "max", "min": "min", "amin": "min", "nanmin": "min"}
